@@ -1,6 +1,7 @@
 import Model
 import Proofs.Order
 import Proofs.Walk
+import Proofs.Visits
 /-!
 C07 — ASAP schedules equal the priority-ordered earliest-fit schedule.
 
@@ -54,5 +55,37 @@ theorem whole_slot (G : Int) (hG : (1 : Rat) / 1000000 ≤ (G : Rat)) : availSec
   unfold availSecs
   simp only [Slot.used]
   grind
+
+/-! ### one task, end to end: the earliest-fit rule -/
+
+/-- **the second clause of C07 for one task** (`TaskScenario.schedule()`, forward mode, single selected resource `r`, no
+    start of its own), started in any state `σ` that satisfies the scheduler invariant and holds nothing of the task on `r`:
+    if it succeeds then
+    (1) the walk starts in the slot of the task's dependency bound (`boundOf`: the latest of the project / inherited start
+        and every predecessor's (start | end) + gap);
+    (2) it visits the slots after it one by one, none skipped;
+    (3) a visited slot is booked for the task **iff** the resource was available there and the limits allowed it at that
+        moment — so the task takes exactly the earliest eligible slots at or after its bound;
+    (4) the seconds it holds, weighted by the efficiency, add up to exactly its effort (so it stops as soon as it can);
+    (5) its reported start is at or after the bound. -/
+theorem task_takes_earliest_slots (e : Env) (wf : WF e) (σ : St) (t r : Nat)
+    (hinv : Inv e σ) (hel : Elig e t r) (hnp : (e.taskD t).startProvided = false)
+    (hb : t < σ.ts.size) (hf : (σ.tst t).forward = true) (hnd : (σ.tst t).done = false)
+    (hclean : ∀ i, usageOf (σ.led.get r i).usage t = none) (hok : (scheduleTask e σ t).2 = true) :
+    let visits := walkVisits e t (e.size.toNat + 3) (σ.setT t (σ.tst t))
+      { cur := (initCursor e σ t).1, offset := (initCursor e σ t).2 }
+    (initCursor e σ t).1 = (cursorOf e (boundOf e σ t)).1 ∧
+    (∀ k (hk : k < visits.length), (visits[k]).2.cur = (initCursor e σ t).1 + k) ∧
+    (∀ p ∈ visits, (usageOf ((scheduleTask e σ t).1.led.get r p.2.cur).usage t ≠ none ↔ gate e p.1 t p.2 r = true)) ∧
+    (∃ vis : List Int, vis.Nodup ∧ (∀ i, i ∉ vis → usageOf ((scheduleTask e σ t).1.led.get r i).usage t = none) ∧
+      sumOver (scheduleTask e σ t).1.led r t vis / 3600 * (e.resD r).eff = (e.taskD t).effort) ∧
+    (∃ v, ((scheduleTask e σ t).1.tst t).start = some v ∧ boundOf e σ t ≤ v) := by
+  intro visits
+  refine ⟨by rw [initCursor_forward e σ t hf hnp], ?_, ?_, ?_, ?_⟩
+  · intro k hk
+    exact walkVisits_consecutive e t _ _ _ k hk
+  · exact scheduleTask_no_idle e wf σ t r hinv hel hb hf hnd hclean hok
+  · exact scheduleTask_exact e wf σ t r hinv hel.leaf hel.alloc hel.nomile hel.effort hel.sel hnd hclean hok
+  · exact scheduleTask_start_ge e wf σ t hb hf hnp hel.alloc hel.nomile hel.effort hnd hok
 
 end SP.C07
